@@ -45,12 +45,15 @@ class Rule:
         """An obligation that is violated or cannot be proved: reviewed assumption, known finding, or violation."""
         self.examined += 1
         k = self.key(fn, what)
-        rv = self.ctx.reviewed.get(k)
+        # reviewed assumptions and known findings are keyed by the base rule id: the same source construct seen in
+        # another build configuration (rule id suffix "@<config>") is the same instance, not a new one
+        bk = "%s|%s|%s" % (self.id.split("@")[0], fn, what)
+        rv = self.ctx.reviewed.get(k, self.ctx.reviewed.get(bk))
         if rv is not None:
             self.assumed.append({"key": k, "reason": rv})
-            self.ctx.reviewed_used.add(k)
+            self.ctx.reviewed_used.add(bk)
             return "assumed"
-        kf = self.ctx.known_by_key.get(k)
+        kf = self.ctx.known_by_key.get(k, self.ctx.known_by_key.get(bk))
         if kf is not None and kf.get("status") == "open" and kf.get("property") == self.ctx.prop:
             self.known.append({"key": k, "id": kf["id"], "what": kf["what"]})
             return "known"
